@@ -9,7 +9,7 @@ import time
 
 from . import build, sexp
 
-ROOT = '/verif'
+ROOT = os.environ.get('VERIF_ROOT', '/verif')
 FORBIDDEN = re.compile(
     r'\b(Admitted|admit|Axiom|Axioms|Parameter|Parameters|Conjecture|Hypothesis|Variable|Variables|Hypotheses)\b'
     r'|Unset\s+Guard|Unset\s+Positivity|Unset\s+Universe|bypass_check|type-in-type|impredicative-set|Admit\s+Obligations')
